@@ -95,26 +95,55 @@ func c13CheckFull(r *prog.Runner, prefix, delim string) (ds []disc, full []c13En
 		return
 	}
 	full = c13Entries(doc)
-	var keys []string
+	var keys, withGhosts []string
+	ghosts := map[string]*prog.MKey{}
 	for k, mk := range mb.Keys {
 		if len(mk.Entries) > 0 {
 			keys = append(keys, k)
+		} else {
+			// no entry left in the model, but writes were made while versioning was not enabled:
+			// the implementation may still hold (up to NullWrites) entries of its own for them
+			ghosts[k] = mk
 		}
+		withGhosts = append(withGhosts, k)
 	}
 	want := oracle.List(keys, prefix, delim)
+	wantMax := oracle.List(withGhosts, prefix, delim)
 	// keys ascending, grouped
-	var gotKeys []string
+	var gotKeys, allKeys []string
+	perGhost := map[string][]c13Entry{}
 	for _, e := range full {
-		if len(gotKeys) == 0 || gotKeys[len(gotKeys)-1] != e.Key {
-			gotKeys = append(gotKeys, e.Key)
+		if len(allKeys) == 0 || allKeys[len(allKeys)-1] != e.Key {
+			allKeys = append(allKeys, e.Key)
+			if ghosts[e.Key] == nil {
+				gotKeys = append(gotKeys, e.Key)
+			}
 		}
+		if ghosts[e.Key] != nil {
+			perGhost[e.Key] = append(perGhost[e.Key], e)
+		}
+	}
+	if !sort.StringsAreSorted(allKeys) {
+		fail("version-keys", "keys in listing are not ascending / grouped: %q", allKeys)
+		return
 	}
 	if !eqStrings(gotKeys, want.Contents) {
 		fail("version-keys", "keys in listing (grouped, in order) = %q want %q", gotKeys, want.Contents)
 		return
 	}
-	if !eqStrings(sortedCopy(doc.CommonPrefixes), want.Prefixes) {
-		fail("version-common-prefixes", "CommonPrefixes = %q want %q", doc.CommonPrefixes, want.Prefixes)
+	for k, es := range perGhost {
+		if len(es) > ghosts[k].NullWrites {
+			fail("version-count", "key %q: %d entries listed, the model holds none and recorded %d unversioned writes", k, len(es), ghosts[k].NullWrites)
+		}
+		for _, e := range es {
+			if e.Latest && !e.Marker {
+				fail("latest-wrong", "key %q reads as NoSuchKey, but the listing flags an object version (%s) as IsLatest", k, e.ID)
+			}
+		}
+	}
+	gotP := sortedCopy(doc.CommonPrefixes)
+	if !subsetStrings(want.Prefixes, gotP) || !subsetStrings(gotP, wantMax.Prefixes) {
+		fail("version-common-prefixes", "CommonPrefixes = %q want %q (at most %q)", doc.CommonPrefixes, want.Prefixes, wantMax.Prefixes)
 	}
 	if doc.IsTruncated {
 		fail("truncated", "unpaginated version listing reports IsTruncated")
@@ -477,4 +506,17 @@ func c13Run(t *testing.T, c *evid.Collector) {
 	})
 	_ = strings.Join
 	_ = sort.Strings
+}
+
+func subsetStrings(a, b []string) bool {
+	in := map[string]bool{}
+	for _, x := range b {
+		in[x] = true
+	}
+	for _, x := range a {
+		if !in[x] {
+			return false
+		}
+	}
+	return true
 }
